@@ -615,6 +615,24 @@ func c02Check(p *path.Path) (o c02Out) {
 						break // a timed-out pair is not a comparison
 					}
 					if a != b && nbad < 3 {
+						// Where the iteration order of a Go map decides the outcome (e.g. .* over a {id,key,value}
+						// object that .keyvalue() built, with a hard error under one member and a suppressible one
+						// under another) the SAME path gives different outcomes from run to run. That is not a
+						// difference between p and its re-parse: repeat both and compare the sets of outcomes.
+						seenA, seenB := map[string]bool{a: true}, map[string]bool{b: true}
+						for rep := 0; rep < 16 && ctx.Err() == nil; rep++ {
+							seenA[queryCanon(ctx, p, doc, opts)] = true
+							seenB[queryCanon(ctx, q, doc, opts)] = true
+						}
+						overlap := false
+						for k := range seenA {
+							if seenB[k] {
+								overlap = true
+							}
+						}
+						if overlap {
+							continue
+						}
 						nbad++
 						add(fmt.Sprintf("query:doc=%s;number=%v;silent=%v", d.text, di == 1, si == 1), a, b)
 					}
